@@ -95,6 +95,11 @@ CHECKS = {
         text="Per filter configuration a fresh isolated application runs the real stack (generated proxy -> ServantProxy -> transport client -> frame-parsing, re-chunking tap -> TarsServer -> tars.Protocol -> generated dispatcher -> recording servant) for an interface compiled at check time by the tree's own tars2go (12 functions over every type category, out-before-in, void, many outs). 1/4/32 callers share one proxy; each call draws function, argument values, request context/status maps, a directive for the servant (values, response context/status, tars.Error or plain error) and the proxy form (plain, WithContext, OneWay). Joined by token: executed exactly once, arguments/context/status received == sent, returned values/maps == directive, error code/message == directive, one-way never answered on the wire, pass-through filters seen once in registration order per side and properly nested.",
         note="The IDL is one hand-written interface (plus the generated-IDL corpus of C16). UDP/TLS transports are outside the statement. Error code 0 / empty messages excluded by design.",
         design="DESIGN.md §4 C01"),
+    "C10": dict(
+        technique="runtime monitor: raw scripted clients (requests built with the reference codec) against the real server stack with a gate-controlled recording servant; per-request join of responses, identity, codes and execution counts",
+        text="The real tars.Protocol + generated dispatcher + recording servant run on real TarsServers (tcp/udp x pool 0/1/4 x handle timeout 0/250 ms). Raw clients pipeline requests over 1/3/10 connections: versions TARS/TUP/JSON, two-way/one-way, success with result values, tars.Error, plain error, tars_ping, unknown function, ids incl. negative/1/MaxInt32, request timeouts. Queue timeout and handle timeout are produced with gates, not sleeps. Per request: number of responses after a quiescence poll (1 / 0 for one-way, never 2), echoed id/version/packet type, TUP reply layout, return code and message, decoded result values per version, and how often the implementation ran (0 for ping, unknown function and queue timeout).",
+        note="Arguments are those of one function (outFirst) encoded per version; other functions' codecs are covered by C01/C03. The TUP reply layout carries no return code, so codes are judged for TARS and JSON.",
+        design="DESIGN.md §4 C10"),
 }
 
 NOT_BUILT_REASON = "check not built yet in this session (runtime-monitoring design exists in DESIGN.md §4; machinery in progress) — not claimed until its monitor runs silent on the unchanged tree"
